@@ -95,6 +95,7 @@ type vbroker struct {
 	dialTimes  []int64
 	dialOK     []bool
 	stamp      bool // record virtual times
+	onState    func(ci int, s ConnState, err error) // application part of the ConnState callback
 }
 
 func itoa(n int) string {
@@ -179,6 +180,9 @@ func (b *vbroker) DialContext(ctx context.Context) (*BaseClient, error) {
 		b.stateErrs[n] = append(b.stateErrs[n], err)
 		verifUnlock()
 		verifEvent("c" + itoa(n) + ":state(" + s.String() + ")")
+		if b.onState != nil {
+			b.onState(n, s, err)
+		}
 	}
 	verifUnlock()
 	return cli, nil
